@@ -366,6 +366,26 @@ func checkC12(r *Result, rng *rand.Rand, thorough bool) {
 			r.sample(map[string]string{"op": op, "granted": impl[i]})
 		}
 	}
+	// the same decisions when the calls share one connection: a decision depends on the call's own credential,
+	// not on who else used the connection before
+	{
+		p := servePeer(e.rw, "10.7.7.7", 900)
+		n := 0
+		for i, op := range ops {
+			f := strings.Fields(op)
+			if f[0] != "access" || f[3] != "0" || i%7 != 0 || n >= 400 {
+				continue
+			}
+			n++
+			got := e.runOn(op, p)
+			if got != impl[i] {
+				r.violate(Violation{Class: "C12/decision-depends-on-connection-history", What: fmt.Sprintf("sent on a connection other identities had used before, ACCESS was answered %s; the same call on its own is answered %s", got, impl[i]), Ops: []string{op}})
+				break
+			}
+		}
+		p.Close()
+		r.Histogram["one-connection"] += n
+	}
 	// model correspondence in chunks of 5000 ops per case
 	var cases []Case
 	var il [][]string
@@ -384,4 +404,34 @@ func checkC12(r *Result, rng *rand.Rand, thorough bool) {
 		}
 		return out
 	})
+}
+
+// runOn sends the ACCESS of a plain "access" op (read-write export) over the given connection.
+func (e *accessEnv) runOn(op string, p *Peer) string {
+	var mode uint32
+	var isDir, ro int
+	var eu, eg, fu, fg, mask uint32
+	var auxs string
+	if _, err := fmt.Sscanf(op, "access %o %d %d %d %d %s %d %d %d", &mode, &isDir, &ro, &eu, &eg, &auxs, &fu, &fg, &mask); err != nil {
+		return "bad-op"
+	}
+	var aux []uint32
+	if auxs != "-" {
+		for _, a := range strings.Split(auxs, ",") {
+			var v uint32
+			fmt.Sscan(a, &v)
+			aux = append(aux, v)
+		}
+	}
+	path, h := "/f", e.fRW
+	if isDir == 1 {
+		path, h = "/d", e.dRW
+	}
+	e.fs.Chmod(path, os.FileMode(mode&0o777))
+	absnfs.VerifNodeSetOwner(e.rw.NFS, h, fu, fg)
+	rs, as, data, err := p.call(progNFS, 3, 4, Cred{Flavor: 1, UID: eu, GID: eg, Aux: aux}, cat(fh(h), u32(mask)))
+	if err != nil || rs != 0 || as != 0 || len(data) != 4+4+84+4 || binary.BigEndian.Uint32(data) != 0 {
+		return fmt.Sprintf("error reply_stat=%d accept_stat=%d len=%d err=%v", rs, as, len(data), err)
+	}
+	return fmt.Sprint(binary.BigEndian.Uint32(data[92:]))
 }
